@@ -49,6 +49,7 @@ def row_spans(c1: str, c2: str, c3: str, n: int) -> bool:
     pre: R.env_int("VP_K") is None or n == R.env_int("VP_K")
     pre: R.env_int("VP_L1") is None or len(c1) == R.env_int("VP_L1")
     pre: R.env_int("VP_L2") is None or len(c2) == R.env_int("VP_L2")
+    pre: R.env_int("VP_C0") is None or (len(c1) >= 1 and R.cls_of(c1[0]) == R.env_int("VP_C0"))
     post: _
     """
     # a row assembled from the cells of several columns: every tag/group of the combined annotation is located,
@@ -92,7 +93,9 @@ def onset_groups(o1: int, o2: int, o3: int, o4: int, nan_mask: int, n: int) -> b
     """
     pre: 1 <= n <= R.N(4)
     pre: 0 <= o1 <= o2 <= o3 <= o4 <= 3
-    pre: 0 <= nan_mask <= 15
+    pre: 0 <= nan_mask < (1 << n)
+    pre: (n >= 4 or o4 == o3) and (n >= 3 or o3 == o2) and (n >= 2 or o2 == o1)
+    pre: R.env_int("VP_K") is None or n == R.env_int("VP_K")
     post: _
     """
     # rows sharing an onset act as one time point: groups are maximal runs of equal onsets, n/a (NaN) rows skipped
@@ -144,16 +147,27 @@ def context_stack(row: int, col: str, depth: int) -> bool:
     return eh.error_context == before
 
 
+def _rs_cells(k, m1, m2):
+    """(number of cells, len(c1), len(c2)); cells with a non-empty first cell are split by the class of c1[0]"""
+    out = []
+    for l1 in range(0, m1 + 1):
+        for l2 in range(0, m2 + 1):
+            if l1 == 0:
+                out.append({"VP_K": k, "VP_L1": l1, "VP_L2": l2})
+            else:
+                for c in range(len(R.DELIMS) + 1):
+                    out.append({"VP_K": k, "VP_L1": l1, "VP_L2": l2, "VP_C0": c})
+    return out
+
+
 HARNESSES = [
     R.H("row_spans",
         ["hed.models.hed_string.HedString.from_hed_strings", "hed.models.hed_string.HedString._get_org_span",
          "hed.models.hed_string.HedString._get_org_span_from_strings", "hed.models.hed_group.HedGroup.check_if_in_original"],
-        quick=R.tier(cells=R.product_cells([{"VP_K": 2}], R.int_cells("VP_L1", 0, 2), R.int_cells("VP_L2", 0, 2))
-                     + R.product_cells([{"VP_K": 3}], R.int_cells("VP_L1", 0, 1), R.int_cells("VP_L2", 0, 1)),
+        quick=R.tier(cells=_rs_cells(2, 2, 2) + _rs_cells(3, 1, 1),
                      env={"VP_N": 2, "VP_M": 1}, timeout=300,
                      bound="2 cells of any Unicode text <= 2 characters each, or 3 cells of <= 1 character each"),
-        thorough=R.tier(cells=R.product_cells([{"VP_K": 2}], R.int_cells("VP_L1", 0, 3), R.int_cells("VP_L2", 0, 3))
-                        + R.product_cells([{"VP_K": 3}], R.int_cells("VP_L1", 0, 2), R.int_cells("VP_L2", 0, 2)),
+        thorough=R.tier(cells=_rs_cells(2, 3, 3) + _rs_cells(3, 2, 2),
                         env={"VP_N": 3, "VP_M": 2}, timeout=1500, path_timeout=60,
                         bound="2 cells <= 3 characters each, or 3 cells <= 2 characters each"),
         what="for a row combined from several cells, the reported span of every tag and group selects exactly that "
@@ -162,10 +176,10 @@ HARNESSES = [
         stubs=["NoSchema stub", "split_into_groups recompiled with `is` -> `==` on characters"],
         outside="SpreadsheetValidator row/column loop, pandas glue, row shuffling, totality of file validation"),
     R.H("onset_groups", ["hed.models.df_util._indexed_dict_from_onsets"],
-        quick=R.tier(env={"VP_N": 3}, timeout=300,
+        quick=R.tier(cells=R.int_cells("VP_K", 1, 3), env={"VP_N": 3}, timeout=300,
                      bound="1-3 rows, non-decreasing integer onsets in [0,3], any subset n/a (solver-enumerated: the "
                            "function keys a dict on the onset)"),
-        thorough=R.tier(env={"VP_N": 4}, timeout=1500, bound="1-4 rows, as quick"),
+        thorough=R.tier(cells=R.int_cells("VP_K", 1, 4), env={"VP_N": 4}, timeout=1500, bound="1-4 rows, as quick"),
         what="time points are the maximal runs of equal onsets in file order; n/a rows belong to none",
         oracle="inline run grouping", stubs=[],
         outside="fractional onsets / the 1e-9 tolerance (floats are hashed, which realises them); pandas to_numeric"),
